@@ -4,7 +4,6 @@ package main
 
 import (
 	"fmt"
-	"os"
 
 	"golang.org/x/tools/go/ssa"
 )
@@ -101,7 +100,7 @@ func runC11CreatedOwned(c *Ctx, ent *entries, reach map[*ssa.Function]bool) {
 			case "Mkdir", "MkdirAll", "Symlink", "Create":
 				creating = true
 			case "OpenFile":
-				if fl, ok := openFlagConst(call); ok && fl&int64(os.O_CREATE) != 0 {
+				if fl, ok := openFlagConst(call); ok && fl&oCREATE != 0 {
 					creating = true
 				}
 			}
